@@ -190,6 +190,13 @@ func checkValueLookup(r *Run, prog *Program, a *Anchors, pfx string) {
 						short = true
 					}
 				}
+				if d1 := g1.Deref[0]; d1 != nil {
+					if p1 := getPath(d1, []string{"Parts"}); p1 != nil {
+						if v, ok := evalBool(sm.St, &Sym{K: sCmp, Op: token.LSS, A: &Sym{K: sLen, A: p1}, B: &Sym{K: sConst, C: constant.MakeInt64(2)}}); ok && v {
+							short = true
+						}
+					}
+				}
 				r.Check(pfx+".lookup", "single-part-absent", pos, short && ec == "nonnil" && !pv, "without a parent lookup the only admissible reason is a selector of fewer than two parts, and the result must be an error"+trail)
 				continue
 			}
@@ -201,15 +208,13 @@ func checkValueLookup(r *Run, prog *Program, a *Anchors, pfx string) {
 				p1 := getPath(d1, []string{"Parts"})
 				p2 := getPath(d2, []string{"Parts"})
 				wantParts := "slice(" + p1.Key() + ",const(0):bin(-,len(" + p1.Key() + "),const(1)))"
-				if p2.Key() != wantParts {
+				if strings.Replace(p2.Key(), "slice("+p1.Key()+",:", "slice("+p1.Key()+",const(0):", 1) != wantParts {
 					okc2, why2 = false, "the parent lookup uses Parts "+p2.Key()+", expected the final path without its last part"
 				}
 				// depth guard: cmp(<, len(parts), 2) must be false on this path
 				guard := false
-				for k, v := range sm.St.facts {
-					if !v && k == "cmp(<,len("+p1.Key()+"),const(2))" {
-						guard = true
-					}
+				if v, ok := evalBool(sm.St, &Sym{K: sCmp, Op: token.LSS, A: &Sym{K: sLen, A: p1}, B: &Sym{K: sConst, C: constant.MakeInt64(2)}}); ok && !v {
+					guard = true
 				}
 				if !guard {
 					okc2, why2 = false, "the parent lookup is not guarded by `fewer than two parts ⇒ not a map-key absence`"
